@@ -565,6 +565,7 @@ def to_shutdown_acts(obs):
             else:
                 acts.append({'a': ['put']})
                 if is_rx and e[3] in rx_made:
+                    rx_made.discard(e[3])      # (a later put of the same entry by the rx thread requeues it after parking)
                     rx_skip[0] = True
         elif kind == 'a.set' and e[2] == '_running' and e[3] is False:
             if is_tx or is_rx:
